@@ -506,3 +506,52 @@ mod test {
     //         }
     //     }
 }
+
+#[cfg(rumqtt_verif)]
+impl DataLog {
+    pub fn verif_snapshot(&self) -> serde_json::Value {
+        let mut filters = serde_json::Map::new();
+        for (filter, idx) in self.filter_indexes.iter() {
+            let data = self.native.get(*idx).unwrap();
+            let (head, tail) = data.log._head_and_tail();
+            let waiters: Vec<_> = data
+                .waiters
+                .waiters()
+                .iter()
+                .map(|(id, r)| serde_json::json!([id, r.filter]))
+                .collect();
+            let next = data.log.next_offset();
+            filters.insert(
+                filter.clone(),
+                serde_json::json!({"idx": idx, "head": head, "tail": tail, "next": [next.0, next.1], "waiters": waiters}),
+            );
+        }
+        let mut retained: Vec<_> = self.retained_publishes.keys().cloned().collect();
+        retained.sort();
+        serde_json::json!({"filters": filters, "retained": retained})
+    }
+}
+
+#[cfg(rumqtt_verif)]
+impl AckLog {
+    pub fn verif_snapshot(&self) -> serde_json::Value {
+        let acks: Vec<String> = self
+            .committed
+            .iter()
+            .map(|a| {
+                let kind = match a {
+                    Ack::ConnAck(..) => "connack",
+                    Ack::PubAck(..) | Ack::PubAckWithProperties(..) => "puback",
+                    Ack::SubAck(..) | Ack::SubAckWithProperties(..) => "suback",
+                    Ack::PubRec(..) | Ack::PubRecWithProperties(..) => "pubrec",
+                    Ack::PubRel(..) | Ack::PubRelWithProperties(..) => "pubrel",
+                    Ack::PubComp(..) | Ack::PubCompWithProperties(..) => "pubcomp",
+                    Ack::UnsubAck(..) => "unsuback",
+                    Ack::PingResp(..) => "pingresp",
+                };
+                format!("{}:{}", kind, crate::router::packetid(a))
+            })
+            .collect();
+        serde_json::json!({"acks": acks, "recorded": self.recorded.len()})
+    }
+}
